@@ -32,6 +32,7 @@ const (
 	OK Outcome = iota
 	Denied
 	Error
+	ErrorTrue // (authentication only) an error is returned together with authenticated == true
 )
 
 // CallbackMode selects how application callbacks are configured.
@@ -582,10 +583,10 @@ func Request(method, target, ctype, accept string, body []byte) *http.Request {
 	if err != nil {
 		panic(err)
 	}
-	if ctype != "" {
+	if ctype != "" && ctype != "-" { // "-" = explicitly no header
 		r.Header.Set("Content-Type", ctype)
 	}
-	if accept != "" {
+	if accept != "" && accept != "-" {
 		r.Header.Set("Accept", accept)
 	}
 	return r
